@@ -39,6 +39,13 @@ def conform_ring(c, name, sut, scripts, module, consts_fn, n=2, origins=(0,), bo
 def C02(c):
     C02_rings(c)
     C02_channels(c)
+    if c.tier != "quick":
+        # the binding itself: a corrupted / shortened recorded trace must be rejected
+        from . import selftest
+        if selftest.run() != 0:
+            c.tool_errors.append("binding selftest failed: a corrupted recorded trace was accepted")
+        else:
+            c.extra["binding_selftest"] = "corrupted result field rejected by L2 and L1 specs; removed hook event rejected by the L2 spec"
 
 
 def C02_rings(c):
